@@ -8,12 +8,12 @@ import (
 	rt "github.com/Azbesciak/RealDecisionMaker/lib/zz_verifrt"
 )
 
-//verif:bounds C01 HC01_aspect: A<=4 considered alternatives, K<=2 / K<=3 criteria whose weights may tie (the tie is broken by a symbolic seeded draw), explicit levels or generated series, fixed and seeded-random order
+//verif:bounds C01 HC01_aspect: A<=4 considered alternatives, K<=2 / K<=3 criteria whose weights may tie (the tie is broken by a symbolic seeded draw), <=2 explicit levels or generated series, fixed and seeded-random order
 
 //verif:harness HC01_aspect mode=REAL reach=weight-tie,shuffled
 func HC01_aspect() {
 	shuffle := rt.Bool("shuffle")
-	s := c12buildOpt(4, rt.Pick(2, 3), rt.Pick(2, 3), shuffle, false)
+	s := c12buildOpt(4, rt.Pick(2, 3), 2, shuffle, false)
 	h := NewAspectEliminationHeuristic(c12sources, rt.Generators)
 	r := h.Evaluate(s.dmp)
 	vh.WellFormed("C01.aspect", r, s.chose)
